@@ -751,7 +751,7 @@ fn main() {
         }
     }
     // 2. random DAGs with sizes from the straddling alphabet
-    for _ in 0..600 * scale {
+    for _ in 0..450 * scale {
         let n = 2 + rng.below(6) as usize;
         let (bb, mix, lab) = (1 + rng.below(3) as usize, rng.below(4) as u32, rng.chance(9, 10));
         let d = gen_random(&mut rng, n, bb, mix, lab);
@@ -760,7 +760,7 @@ fn main() {
         }
     }
     // 3. straddling templates: distance = max +- 2
-    for _ in 0..500 * scale {
+    for _ in 0..400 * scale {
         let d = gen_straddle(&mut rng);
         run_case(&mut cx, &d, "straddle", true);
     }
@@ -776,7 +776,8 @@ fn main() {
         run_case(&mut cx, &d, "misuse_width", true);
     }
     // 6. bounded-exhaustive shapes
-    exhaustive(3, &[0, 65533, 65536], &[2, 3, 4], |d| {
+    let ex_widths: &[usize] = if thorough { &[2, 3, 4] } else { &[2, 4] };
+    exhaustive(3, &[0, 65533, 65536], ex_widths, |d| {
         run_case(&mut cx, &d, "exhaustive3", true);
     });
     if thorough {
